@@ -19,7 +19,7 @@ AGREE_IS_PROPERTY = True
 CORRESPONDENCE = ("Model.Query.{fresh_query,get_tree,get,query} ~ fgutils.query.FGQuery.{__init__,get}, "
                   "fgutils.fgconfig.FGConfigProvider.get_tree (answer list exactly; the same object after a history of "
                   "earlier get() calls; fresh interpreters under PYTHONHASHSEED in {0,1,2,3,4,7,random})")
-RULE = ("(i) molecules as for C05 (FG-rich fragments, 1-14 heavy atoms, all id schemes, explicit hydrogens none/some/all), default "
+RULE = ("(0) one FGQuery asked about two molecules with the same node ids in the same order and the same element on every id but the bonds on other atoms (ids exchanged among equal atoms); (i) molecules as for C05 (FG-rich fragments, 1-14 heavy atoms, all id schemes, explicit hydrogens none/some/all), default "
         "configuration (75%) or a generated list; each case = a history of 0-2 earlier molecules queried on the SAME FGQuery "
         "object, then the molecule of interest. In process (PYTHONHASHSEED=0): the answer after the history must equal the "
         "model's answer of a fresh object ('agree') and the model's answer after the same history ('history'). In fresh "
@@ -80,9 +80,41 @@ def generate(seed, tier, ncases=None):
         for c in c05.gen_ring_cases(lib.rng_for(seed, ID, 600000 + i), k=2):
             c["history"] = []
             cases.append(c)
+    # one FGQuery object asked about two molecules with the SAME node ids in the same order and the same element on every id,
+    # but the bonds attached to other atoms (ids exchanged among atoms of one element): a memo keyed by ids / elements /
+    # an isomorphism-invariant digest would answer the second from the first
+    for i in range(max(2, n // 3)):
+        cases.append(gen_permuted_case(lib.rng_for(seed, ID, 695000 + i)))
     attach_seed_answers(cases, fc.SEEDS if tier == "quick" else fc.SEEDS + ["11", "12345", "random"])
     for c in cases:
         yield c
+
+
+def gen_permuted_case(rng):
+    import networkx as nx
+    for _ in range(20):
+        c = c05.gen_case(rng, default_p=0.8)
+        g = c["graph"]
+        groups = {}
+        for n, d in g.nodes(data=True):
+            groups.setdefault(repr(sorted(d.items(), key=repr)), []).append(n)
+        pools = [v for v in groups.values() if len(v) >= 2]
+        if pools and g.number_of_edges() >= 2:
+            break
+    pi = {n: n for n in g.nodes}
+    for _ in range(rng.randint(1, 3)):
+        if not pools:
+            break
+        a, b = rng.sample(rng.choice(pools), 2)
+        pi[a], pi[b] = pi[b], pi[a]
+    g2 = nx.Graph()
+    for n, d in g.nodes(data=True):
+        g2.add_node(n, **{k: (list(v) if isinstance(v, list) else v) for k, v in d.items()})
+    for u, v, d in g.edges(data=True):
+        g2.add_edge(pi[u], pi[v], **dict(d))
+    c["history"] = [g2]
+    c["kind"] = "same-ids-other-bonds"
+    return c
 
 
 COLLISION_CONFIGS = [None, None,
